@@ -231,15 +231,59 @@ var c19Seeds = []string{
 	"{\n  \"configs\": [\n    {\n      \"name\": \"b\",\n      \"nodefraction\": 0.25,\n      \"granularity\": \"lines\",\n      \"trim\": true\n    }\n  ]\n}",
 }
 
+// c19FullSeed: a hand-written settings document in which EVERY saved option holds a value that is
+// neither its default nor equal to another option's value, followed by menu + apply: shows at once
+// an option the URL table forgot, two options sharing a parameter, a lossy shortening.
+func c19FullSeed(t *c19Table) c19Case {
+	var b strings.Builder
+	b.WriteString(`{"configs":[{"name":"full"`)
+	n := 0
+	for _, f := range t.Fields {
+		if !f.Saved {
+			continue
+		}
+		n++
+		switch f.Kind {
+		case "bool":
+			fmt.Fprintf(&b, ",%q:%v", f.Name, !f.Default.B)
+		case "int":
+			fmt.Fprintf(&b, ",%q:%d", f.Name, 100+n)
+		case "float":
+			fmt.Fprintf(&b, ",%q:0.%d25", f.Name, n)
+		case "choice":
+			v := f.Choices[0]
+			if v == f.Default.S && len(f.Choices) > 1 {
+				v = f.Choices[1]
+			}
+			fmt.Fprintf(&b, ",%q:%q", f.Name, v)
+		default:
+			fmt.Fprintf(&b, ",%q:%q", f.Name, fmt.Sprintf("v%d-%s", n, f.Name))
+		}
+	}
+	b.WriteString(`},{"name":"other","focus":"keep"}]}`)
+	return c19Case{Kind: "seq", Steps: []c19Step{
+		{Op: "seed", Raw: b.String()},
+		{Op: "menu", Page: map[string]string{"f": "main"}},
+		{Op: "apply", Name: "full", Page: map[string]string{"n": "10", "s": "stale", "h": "stale"}},
+		{Op: "save", Name: "full", Params: map[string]string{}, Intent: map[string]c19Intent{}},
+		{Op: "apply", Name: "other", Page: map[string]string{}},
+		{Op: "delete", Name: "full"},
+	}}
+}
+
 func c19GenSeq(r *Rng, t *c19Table) c19Case {
 	cs := c19Case{Kind: "seq"}
 	if r.Chance(25) {
 		cs.Steps = append(cs.Steps, c19Step{Op: "seed", Raw: r.Pick(c19Seeds)})
 	}
 	n := 4 + r.Intn(9)
-	var live []string
+	var live []string // names probably present (generation does not know which saves fail)
 	if len(cs.Steps) > 0 {
-		live = append(live, "legacy", "a", "b")
+		for _, nm := range []string{"legacy", "a", "b"} {
+			if strings.Contains(cs.Steps[0].Raw, `"`+nm+`"`) {
+				live = append(live, nm)
+			}
+		}
 	}
 	for i := 0; i < n; i++ {
 		switch k := r.Intn(100); {
@@ -248,12 +292,18 @@ func c19GenSeq(r *Rng, t *c19Table) c19Case {
 			if r.Chance(3) {
 				name = ""
 			}
-			cs.Steps = append(cs.Steps, c19GenSave(r, t, name, r.Chance(85)))
-			live = append(live, name)
+			valid := r.Chance(85)
+			cs.Steps = append(cs.Steps, c19GenSave(r, t, name, valid))
+			if valid && name != "" {
+				live = append(live, name)
+			}
 		case k < 60:
-			name := live[r.Intn(len(live))]
+			j := r.Intn(len(live))
+			name := live[j]
 			if r.Chance(20) {
 				name = "nosuch"
+			} else {
+				live = append(live[:j:j], live[j+1:]...)
 			}
 			cs.Steps = append(cs.Steps, c19Step{Op: "delete", Name: name})
 		case k < 75:
@@ -627,10 +677,12 @@ func runC19(c *Ctx) {
 	e.concurrent(r)
 	// saved options the URL cannot carry (separate stream)
 	if terr == nil {
-		e.sessions()
+		e.sessions(r)
 	}
 	// (i): sequences
 	if terr == nil {
+		full := c19FullSeed(t)
+		c.Res.Count("seq:"+c19SeqKey(full), e.runSeq(full) || true)
 		n := 150 * c.Scale
 		for i := 0; i < n; i++ {
 			cs := c19GenSeq(r, t)
